@@ -55,6 +55,9 @@ func repTampers(c *Ctx) []repTamper {
 		{name: "cname", invalidates: true, as: true, tgs: true, f: func(rep *messages.KDCRepFields, enc *messages.EncKDCRepPart, key *types.EncryptionKey, usage *uint32, skew time.Duration) {
 			rep.CName = other
 		}},
+		{name: "sname-boundary", invalidates: true, as: true, f: func(rep *messages.KDCRepFields, enc *messages.EncKDCRepPart, key *types.EncryptionKey, usage *uint32, skew time.Duration) {
+			enc.SName = types.PrincipalName{NameType: enc.SName.NameType, NameString: []string{strings.Join(enc.SName.NameString, "/")}}
+		}},
 		{name: "crealm", invalidates: true, as: true, f: func(rep *messages.KDCRepFields, enc *messages.EncKDCRepPart, key *types.EncryptionKey, usage *uint32, skew time.Duration) {
 			rep.CRealm = "OTHER.REALM"
 		}},
@@ -336,6 +339,7 @@ func c09(c *Ctx) {
 	for _, et := range allEtypes {
 		for _, pre := range []bool{false, true} {
 			k.RequirePreauth = pre
+			k.ExtraHints = pre && et%2 == 0
 			k.Tamper, k.ErrorCode = nil, 0
 			cl := newClient(et)
 			err := cl.Login()
